@@ -64,6 +64,7 @@ type Thread struct {
 type pointRec struct {
 	n          int  // number of options
 	costly     bool // choosing a non-default option costs one deviation
+	freeN      int  // if >0 (and !costly): options [0,freeN) are free, options >= freeN cost one deviation
 	chosen     int
 	costBefore int
 	label      string
@@ -89,6 +90,7 @@ type Exec struct {
 	trace    bool
 	monitor  func()
 	nextID   int
+	delayBound bool
 	held     map[interface{}]func()
 	diverged string
 	mu       sync.Mutex // protects nothing in normal operation; used by paranoid checks
@@ -241,6 +243,7 @@ func (x *Exec) opEnabled(t *Thread) bool {
 type option struct {
 	t     *Thread
 	timer *Timer
+	timed bool // firing it lets virtual time pass (timer or sleeper wake-up)
 }
 
 func (x *Exec) options(self *Thread) []option {
@@ -264,7 +267,7 @@ func (x *Exec) options(self *Thread) []option {
 	if min >= 0 {
 		for _, t := range x.threads {
 			if t.state == tPending && t.sleeping && t.sleepTill == min {
-				opts = append(opts, option{t: t})
+				opts = append(opts, option{t: t, timed: true})
 			}
 		}
 		var tl []*Timer
@@ -275,7 +278,7 @@ func (x *Exec) options(self *Thread) []option {
 		}
 		sort.Slice(tl, func(i, j int) bool { return tl[i].seq < tl[j].seq })
 		for _, tm := range tl {
-			opts = append(opts, option{timer: tm})
+			opts = append(opts, option{timer: tm, timed: true})
 		}
 	}
 	// quiescing threads: enabled only when nothing else is
@@ -298,8 +301,25 @@ func (x *Exec) options(self *Thread) []option {
 	return opts
 }
 
+func (p *pointRec) altCost(alt int) int {
+	if alt == 0 {
+		return 0
+	}
+	if p.costly {
+		return 1
+	}
+	if p.freeN > 0 && alt >= p.freeN {
+		return 1
+	}
+	return 0
+}
+
 // choose records a choice point with n options and returns the chosen index.
 func (x *Exec) choose(n int, costly bool, label string) int {
+	return x.chooseN(n, costly, 0, label)
+}
+
+func (x *Exec) chooseN(n int, costly bool, freeN int, label string) int {
 	if n <= 1 {
 		return 0
 	}
@@ -312,10 +332,9 @@ func (x *Exec) choose(n int, costly bool, label string) int {
 			c = 0
 		}
 	}
-	x.points = append(x.points, pointRec{n: n, costly: costly, chosen: c, costBefore: x.cost, label: label})
-	if c != 0 && costly {
-		x.cost++
-	}
+	pr := pointRec{n: n, costly: costly, freeN: freeN, chosen: c, costBefore: x.cost, label: label}
+	x.points = append(x.points, pr)
+	x.cost += pr.altCost(c)
 	return c
 }
 
@@ -355,7 +374,27 @@ func (x *Exec) switchFrom(self *Thread, finished bool) {
 	if x.trace {
 		label = x.describe(opts)
 	}
-	c := x.choose(len(opts), selfEnabled, label)
+	// letting virtual time pass (timer, sleeper wake-up) while a regular thread
+	// could run is a deviation, like a preemption
+	freeN := 0
+	if !selfEnabled {
+		for _, o := range opts {
+			if !o.timed {
+				freeN++
+			}
+		}
+		if freeN == len(opts) {
+			freeN = 0
+		}
+	}
+	costly := selfEnabled
+	if x.delayBound {
+		// delay bounding: every departure from the deterministic default scheduler
+		// (run the current thread while enabled, else the lowest-id enabled thread,
+		// timers last) costs one deviation
+		costly, freeN = true, 0
+	}
+	c := x.chooseN(len(opts), costly, freeN, label)
 	o := opts[c]
 	if x.trace {
 		x.res.Trace = append(x.res.Trace, fmt.Sprintf("#%d %s -> %s", len(x.points), x.describe(opts), x.descOpt(o)))
@@ -843,6 +882,7 @@ func MapOrder(m interface{}) []reflect.Value {
 // Options configure Explore.
 type Options struct {
 	Bound     int           // max deviations/preemptions per execution (<0: unbounded)
+	Delay     bool          // cost model: false = preemption bounding (only switching away from an enabled thread or letting time pass costs), true = delay bounding (every non-default scheduling choice costs)
 	MaxSteps  int           // per-execution step limit (default 100000)
 	MaxExecs  int           // cap on executions (0 = none); hitting it makes the run non-exhaustive
 	Deadline  time.Time     // zero = none
@@ -872,7 +912,7 @@ type Stats struct {
 // (default choice after the prefix) and returns the result.
 func RunOnce(prefix []int, opts Options, body func()) *Result {
 	x := &Exec{prefix: prefix, finished: make(chan struct{}), maxSteps: opts.MaxSteps, closed: map[uintptr]bool{},
-		res: &Result{}, trace: opts.Trace, monitor: opts.Monitor}
+		res: &Result{}, trace: opts.Trace, monitor: opts.Monitor, delayBound: opts.Delay}
 	if x.maxSteps == 0 {
 		x.maxSteps = 100000
 	}
@@ -975,10 +1015,7 @@ func Explore(opts Options, body func(), check func(r *Result)) Stats {
 		for i := len(f.prefix); i < len(r.points); i++ {
 			p := r.points[i]
 			for alt := 1; alt < p.n; alt++ {
-				c := p.costBefore
-				if p.costly {
-					c++
-				}
+				c := p.costBefore + p.altCost(alt)
 				if opts.Bound >= 0 && c > opts.Bound {
 					continue
 				}
